@@ -48,8 +48,12 @@ func enteringPreds(b *ssa.BasicBlock) []*ssa.BasicBlock {
 
 // FactsAt returns every edge fact that dominates block b: facts of edges
 // P->D where D dominates b and P is D's only entering predecessor. These are
-// the conditions known to hold whenever control is in b.
-func FactsAt(b *ssa.BasicBlock) []Fact {
+// the conditions known to hold whenever control is in b. Facts that follow
+// from those through phis (typically the results of an inlined helper) are
+// derived and appended, see deriveFacts.
+func FactsAt(b *ssa.BasicBlock) []Fact { return factsAtDepth(b, 0) }
+
+func factsAtDepth(b *ssa.BasicBlock, depth int) []Fact {
 	var out []Fact
 	for d := b; d != nil; d = Idom(d) {
 		ps := enteringPreds(d)
@@ -60,21 +64,151 @@ func FactsAt(b *ssa.BasicBlock) []Fact {
 			out = append(out, f)
 		}
 	}
+	if depth < 3 {
+		out = append(out, deriveFacts(out, depth)...)
+	}
 	return out
+}
+
+func factsAtEdgeDepth(from, to *ssa.BasicBlock, depth int) []Fact {
+	out := factsAtDepth(from, depth)
+	if f, ok := EdgeFact(from, to); ok {
+		out = append(out, f)
+		if depth < 3 {
+			out = append(out, deriveFacts([]Fact{f}, depth)...)
+		}
+	}
+	return out
+}
+
+// deriveFacts: what a fact about a phi says about the phi's operands.
+//
+//   - boolean phi == pol: operands that are the opposite constant cannot have
+//     been taken; if exactly one operand remains, control came over that edge:
+//     the operand has value pol and every fact of that edge holds as well.
+//   - phi != nil: the same with nil constants excluded.
+//   - phi == nil: an operand t is nil if on every edge the phi either IS t or
+//     the edge's own facts say t == nil.
+func deriveFacts(fs []Fact, depth int) []Fact {
+	var out []Fact
+	for _, f := range fs {
+		rel := f.Rel()
+		switch {
+		case rel.Op == token.ILLEGAL:
+			phi, ok := rel.B.(*ssa.Phi)
+			if !ok {
+				continue
+			}
+			cand := -1
+			n := 0
+			for i, e := range phi.Edges {
+				if cb, isC := ConstBool(e); isC && cb != rel.Pol {
+					continue
+				}
+				n++
+				cand = i
+			}
+			if n == 1 {
+				e := phi.Edges[cand]
+				if _, isC := e.(*ssa.Const); !isC {
+					nf := Fact{Cond: e, Pol: rel.Pol, If: f.If, From: f.From, To: f.To}
+					out = append(out, nf)
+					out = append(out, deriveFacts([]Fact{nf}, depth+1)...)
+				}
+				if cand < len(phi.Block().Preds) {
+					out = append(out, factsAtEdgeDepth(phi.Block().Preds[cand], phi.Block(), depth+1)...)
+				}
+			}
+		case (rel.Op == token.NEQ || rel.Op == token.EQL) && IsNilConst(rel.Y):
+			phi, ok := rel.X.(*ssa.Phi)
+			if !ok {
+				continue
+			}
+			if rel.Op == token.NEQ {
+				cand, n := -1, 0
+				for i, e := range phi.Edges {
+					if IsNilConst(e) {
+						continue
+					}
+					n++
+					cand = i
+				}
+				if n == 1 && cand < len(phi.Block().Preds) {
+					out = append(out, synthNil(phi.Edges[cand], false, f))
+					out = append(out, factsAtEdgeDepth(phi.Block().Preds[cand], phi.Block(), depth+1)...)
+				}
+				continue
+			}
+			// phi == nil
+			seen := map[ssa.Value]bool{}
+			for _, t := range phi.Edges {
+				if _, isC := t.(*ssa.Const); isC || seen[t] {
+					continue
+				}
+				seen[t] = true
+				ok := true
+				for j, e := range phi.Edges {
+					if e == t {
+						continue
+					}
+					if j >= len(phi.Block().Preds) {
+						ok = false
+						break
+					}
+					if !HasFact(factsAtEdgeDepth(phi.Block().Preds[j], phi.Block(), depth+1), func(x Fact) bool { return x.SaysNil(t) }) {
+						ok = false
+						break
+					}
+				}
+				if ok {
+					out = append(out, synthNil(t, true, f))
+				}
+			}
+			// if only one edge can be nil, control came over it
+			cand, n := -1, 0
+			for i, e := range phi.Edges {
+				if knownNonNilValue(e) {
+					continue
+				}
+				n++
+				cand = i
+			}
+			if n == 1 && cand < len(phi.Block().Preds) {
+				out = append(out, factsAtEdgeDepth(phi.Block().Preds[cand], phi.Block(), depth+1)...)
+			}
+		}
+	}
+	return out
+}
+
+// DeriveFacts exposes the phi derivation for a given set of facts.
+func DeriveFacts(fs []Fact) []Fact { return deriveFacts(fs, 0) }
+
+// knownNonNilValue: a freshly constructed error / sentinel load.
+func knownNonNilValue(v ssa.Value) bool {
+	if u, ok := v.(*ssa.UnOp); ok {
+		if _, isG := u.X.(*ssa.Global); isG {
+			return true
+		}
+	}
+	return false
+}
+
+// synthNil builds a carrier fact "v == nil" (isNil) or "v != nil".
+func synthNil(v ssa.Value, isNil bool, from Fact) Fact {
+	op := token.EQL
+	if !isNil {
+		op = token.NEQ
+	}
+	return Fact{Cond: &ssa.BinOp{Op: op, X: v, Y: ssa.NewConst(nil, v.Type())}, Pol: true, If: from.If, From: from.From, To: from.To}
 }
 
 // FactsAtInstr is FactsAt for the block of an instruction.
 func FactsAtInstr(i ssa.Instruction) []Fact { return FactsAt(i.Block()) }
 
 // FactsAtEdge returns the facts that hold when edge from->to is taken: the
-// facts dominating from plus the edge's own fact.
-func FactsAtEdge(from, to *ssa.BasicBlock) []Fact {
-	out := FactsAt(from)
-	if f, ok := EdgeFact(from, to); ok {
-		out = append(out, f)
-	}
-	return out
-}
+// facts dominating from plus the edge's own fact (and what derives from them).
+func FactsAtEdge(from, to *ssa.BasicBlock) []Fact { return factsAtEdgeDepth(from, to, 0) }
 
 // InstrDominates reports whether instruction a is executed before b on every
 // path that reaches b.
